@@ -590,7 +590,9 @@ theorem execCmd_tracks : (c : Cmd) → Sub S (posCmd c) → Tracks S (execCmd g 
     split
     · exact Or.inl rfl
     · split
-      · exact callDataPos_step g allData data ctx st hs.tail.left
+      · have hn : (noteImpossible allData ctx st).node = st.node := by unfold noteImpossible; split <;> rfl
+        show _ = st.node ∨ _
+        exact callDataPos_step g allData data ctx st hs.tail.left
       · rename_i cd st1 hcd
         have e1 : Step S st st1 := Step.of_node (callData_node hcd)
         have hp := execParams_tracks params hs.tail.right cd ctx st1
